@@ -163,6 +163,22 @@ def table(repo, rule):
     return node
 
 
+def _table_exponents(repo):
+    """the S-box exponents `a` of the parameter table"""
+    m = repo.module(PC)
+    out = set()
+    for n in m.tree.body:
+        if isinstance(n, ast.Assign) and norm(n.targets[0]) == "poseidon_constants" and isinstance(n.value, ast.Dict):
+            for v in n.value.values:
+                if isinstance(v, ast.Dict):
+                    for kk, vv in zip(v.keys, v.values):
+                        if isinstance(kk, ast.Constant) and kk.value == "a" and isinstance(vv, ast.Constant) and isinstance(vv.value, int):
+                            out.add(vv.value)
+    if not out:
+        raise AnalysisError("no S-box exponent found in the parameter table")
+    return out
+
+
 def rounds(repo, rule):
     fi = repo.fn(PH, "permute")
     loops = [s for s in fi.node.body if isinstance(s, ast.For)]
@@ -224,19 +240,48 @@ def rounds(repo, rule):
                 and norm(st.value.generators[0].iter).startswith("zip(")
             if not okadd:
                 rule.undecided(fi.loc(st), fi.fq, norm(st)[:100], "constant addition not in the element-wise zip form")
-        # S-box
+        # S-box: `X ** a`, or a helper applied to X that the power domain shows to return X^a for every exponent of the table
         pows = [x for s in lp.body for x in ast.walk(s) if isinstance(x, ast.BinOp) and isinstance(x.op, ast.Pow)]
+        helper_undecided = None
+        wrong_power = None
+        for s in lp.body:
+            for x in ast.walk(s):
+                if isinstance(x, ast.Call) and isinstance(x.func, ast.Name) and len(x.args) == 1 and not x.keywords:
+                    hf = repo.module(PH).functions.get(x.func.id)
+                    if hf is None or not isinstance(hf.node, ast.FunctionDef) or x.func.id in ("matmul", "transpose", "permute"):
+                        continue
+                    from ..powdom import power_of, Undecided as _PU
+                    try:
+                        ks = {a_: power_of(hf.node, {"a": a_}) for a_ in sorted(_table_exponents(repo))}
+                    except _PU as e:
+                        helper_undecided = (x, str(e))
+                        continue
+                    if all(k == a_ for a_, k in ks.items()):
+                        x._sbox_arg = x.args[0]
+                        pows.append(x)
+                    else:
+                        wrong_power = (x, ks)
         sb = None
         for s in lp.body:
             if any(p in list(ast.walk(s)) for p in pows):
                 sb = s
-        if sb is None or not all(norm(p.right) == "a" for p in pows):
+        def _arg(p):
+            return getattr(p, "_sbox_arg", None) if isinstance(p, ast.Call) else p.left
+        if wrong_power is not None:
+            rule.violation(fi.loc(wrong_power[0]), fi.fq, norm(wrong_power[0])[:80], "the S-box helper raises its argument to the power "
+                           "%s for a = %s" % (", ".join(str(k) for k in wrong_power[1].values()), ", ".join(str(k) for k in wrong_power[1])),
+                           "rounds/sbox/%d" % idx)
+        elif sb is None and helper_undecided is not None:
+            rule.undecided(fi.loc(helper_undecided[0]), fi.fq, norm(helper_undecided[0])[:80], "helper applied in the round not "
+                           "interpretable in the power domain: %s" % helper_undecided[1])
+        elif sb is None or not all(isinstance(p, ast.Call) or norm(p.right) == "a" for p in pows):
             rule.violation(lw, fi.fq, norm(lp.body)[:100], "round applies no `** a` S-box", "rounds/sbox/%d" % idx)
         else:
             full = isinstance(sb, ast.Assign) and isinstance(sb.value, ast.ListComp) and not sb.value.generators[0].ifs \
-                and norm(sb.value.generators[0].iter) == norm(sb.targets[0])
+                and norm(sb.value.generators[0].iter) == norm(sb.targets[0]) and sb.value.elt in pows \
+                and norm(_arg(sb.value.elt)) == norm(sb.value.generators[0].target)
             partial = isinstance(sb, ast.Assign) and isinstance(sb.targets[0], ast.Subscript) and norm(sb.targets[0].slice) == "0" \
-                and isinstance(sb.value, ast.BinOp) and norm(sb.value.left) == norm(sb.targets[0])
+                and sb.value in pows and norm(_arg(sb.value)) == norm(sb.targets[0])
             got = "full" if full else ("partial" if partial else "?")
             if got == kinds[idx]:
                 rule.ok(fi.loc(sb), fi.fq, "group %d S-box layer: %s (%s)" % (idx + 1, got, norm(sb)[:60]))
